@@ -308,13 +308,16 @@ register(Contract(
     requires=["not g_scanned", "not g_exc", "not g_listed"],
     types={"args": "Namespace"},
     calls={
-        "self.__scan_files_if_no_errors": (MAIN + "__scan_files_if_no_errors", ["g_scanned = True", "g_cat = result"]),
-        "self.__find_files_to_scan": (MAIN + "__find_files_to_scan", ["g_listed = result[3]", "g_nfiles = len(result[1])", "g_err = result[2]"]),
+        "self.__scan_files_if_no_errors": (MAIN + "__scan_files_if_no_errors", ["g_scanned = True", "g_cat = result"], ["g_exc = True"]),
+        "self.__find_files_to_scan": (MAIN + "__find_files_to_scan", ["g_listed = result[3]", "g_nfiles = len(result[1])", "g_err = result[2]"], ["g_exc = True"]),
+        "self.__initialize_subsystems": (MAIN + "__initialize_subsystems", [], ["g_exc = True"]),
     },
     ensures=["False"],   # main() never returns: it always leaves through ReturnCodeHelper.exit_application
     raises=[Raises("SystemExit", ensures=[
         # whatever happened, the exit code is an entry of the documented table for the selected scheme
         f"is_doc_code(raised.code, {SCHEME})",
+        # C15: an unexpected exception anywhere below main() ends in SYSTEM_ERROR, never in a clean result
+        f"implies(g_exc, raised.code == {SYSERR_NOW})",
         # a completed scan / fix exits with the code of its documented category
         f"implies(g_scanned and not g_exc, raised.code == doc_exit_code({SCHEME}, g_cat))",
         # --list-files: NO_FILES_TO_SCAN iff nothing is selected or an argument was in error (independent of argument order)
